@@ -111,10 +111,12 @@ RecvStep ==
 CanSpur(t) == SPURIOUS /\ spur < MaxSpur /\ st[t] = "wait" /\ t \notin woken
 CanStep(t) == Runnable(t) \/ CanSpur(t)
 
-Step(t) ==
+Sched(t) ==
     /\ CanStep(t)
     /\ spur' = IF Runnable(t) THEN spur ELSE spur + 1
-    /\ IF t = 0 THEN RecvStep ELSE SenderStep(t)
+SendTask(t) == Sched(t) /\ SenderStep(t)
+RecvTask == Sched(0) /\ RecvStep
+Step(t) == IF t = 0 THEN RecvTask ELSE SendTask(t)
 
 \* only the polls an executor is obliged to make (for fairness)
 Due(t) == Runnable(t) /\ Step(t)
@@ -122,8 +124,6 @@ Due(t) == Runnable(t) /\ Step(t)
 Terminal == \A t \in Tasks : ~CanStep(t)
 Done == ~EMIT /\ Terminal /\ UNCHANGED vars     \* generator runs end in a deadlock instead
 
-SendTask(t) == Step(t)
-RecvTask == Step(0)
 Next == (\E t \in 1..NSend : SendTask(t)) \/ RecvTask \/ Done
 Spec == Init /\ [][Next]_vars
 FairSpec == Spec /\ \A t \in 0..NSend : WF_vars(Due(t))
